@@ -134,7 +134,7 @@ static int vf_next_chunk(size_t max_size)
 	return n;
 }
 /* injected read faults (C14): at the vf_fault_read-th read request of the execution */
-enum { VF_F_NONE = 0, VF_F_EINTR1, VF_F_EINTR2, VF_F_HARD, VF_F_PARTIAL, VF_F_NKINDS };
+enum { VF_F_NONE = 0, VF_F_EINTR1, VF_F_EINTR2, VF_F_HARD, VF_F_PARTIAL, VF_F_PARTHARD, VF_F_NKINDS };
 static long vf_exec_reads, vf_fault_read, vf_last_reads, vf_last_allocs; static int vf_fault_kind, vf_fault_left;
 static int vf_fault_now(void)
 {
@@ -155,12 +155,12 @@ static size_t vf_fread(void *p, size_t sz, size_t n, FILE *f)
 	flt = vf_fault_now();
 	if (flt == VF_F_EINTR1 || flt == VF_F_EINTR2) { vf_err_flag = 1; errno = EINTR; return 0; }
 	if (flt == VF_F_HARD) { vf_err_flag = 1; errno = EIO; return 0; }
-	if (flt == VF_F_PARTIAL) {
-		/* a signal arrives after part of the request has been collected: short count, error indicator set */
+	if (flt == VF_F_PARTIAL || flt == VF_F_PARTHARD) {
+		/* a signal - or a hard error - arrives after part of the request has been collected: short count, error indicator set */
 		k = vf_next_chunk(n);
 		if (k > 1) k = k / 2;
 		if (k > 0) memcpy(p, vf_in + vf_in_pos, (size_t)k);
-		vf_in_pos += k; vf_err_flag = 1; errno = EINTR;
+		vf_in_pos += k; vf_err_flag = 1; errno = (flt == VF_F_PARTIAL) ? EINTR : EIO;
 		return (size_t)k;
 	}
 	k = vf_next_chunk(n);
@@ -175,7 +175,7 @@ static int vf_getc(FILE *f)
 	vf_n_reads++;
 	flt = vf_fault_now();
 	if (flt == VF_F_EINTR1 || flt == VF_F_EINTR2) { vf_err_flag = 1; errno = EINTR; return EOF; }
-	if (flt == VF_F_HARD || flt == VF_F_PARTIAL) { vf_err_flag = 1; errno = EIO; return EOF; }
+	if (flt == VF_F_HARD || flt == VF_F_PARTIAL || flt == VF_F_PARTHARD) { vf_err_flag = 1; errno = EIO; return EOF; }
 	if (vf_in_pos >= vf_in_len) { vf_step(); return EOF; }
 	return vf_in[vf_in_pos++];
 }
@@ -189,7 +189,7 @@ static long vf_sysread(int fd, void *buf, size_t n)
 	vf_step(); vf_n_reads++;
 	flt = vf_fault_now();
 	if (flt == VF_F_EINTR1 || flt == VF_F_EINTR2) { errno = EINTR; return -1; }
-	if (flt == VF_F_HARD || flt == VF_F_PARTIAL) { errno = EIO; return -1; }
+	if (flt == VF_F_HARD || flt == VF_F_PARTIAL || flt == VF_F_PARTHARD) { errno = EIO; return -1; }
 	k = vf_next_chunk(n);
 	if (k > 0) memcpy(buf, vf_in + vf_in_pos, (size_t)k);
 	vf_in_pos += k;
@@ -800,7 +800,7 @@ static void vf_fault_enumerate(void)
 {
 	long N, Rn, k;
 	int kind;
-	static const char *kn[] = { "", "EINTR", "EINTR twice", "read error", "EINTR after a partial read" };
+	static const char *kn[] = { "", "EINTR", "EINTR twice", "read error", "EINTR after a partial read", "read error after a partial read" };
 	vf_explore_off = 1;
 	memset(vf_fault_reported, 0, sizeof vf_fault_reported);
 	vf_alloc_fail_at = 0; vf_fault_kind = 0;
@@ -821,11 +821,11 @@ static void vf_fault_enumerate(void)
 #ifdef VF_DEFAULT_INPUT
 	for (k = 1; k <= Rn; k++) {
 		for (kind = VF_F_EINTR1; kind < VF_F_NKINDS; kind++) {
-			if (kind == VF_F_PARTIAL && VF_DEFAULT_INPUT != 1) continue;
+			if ((kind == VF_F_PARTIAL || kind == VF_F_PARTHARD) && VF_DEFAULT_INPUT != 1) continue;
 			vf_fault_read = k; vf_fault_kind = kind;
 			vf_executions++; vf_n_fault_runs++; vf_n_read_faults++;
 			vf_run_one();
-			if (kind == VF_F_HARD) {
+			if (kind == VF_F_HARD || kind == VF_F_PARTHARD) {
 				if (vf_last_status == VF_ST_FATAL && strstr(vf_fatal_msg, "input in flex scanner failed")) vf_n_fault_ok++;
 				else vf_fault_report(kn[kind], k, "the fatal-error hook with 'input in flex scanner failed'");
 			} else {
